@@ -255,7 +255,7 @@ def gen_string(rng):
 
 
 def gen_arg_list(rng, n):
-    kind = rng.choice(["int", "int", "signed", "float", "float", "string", "mixed", "mixed", "version", "small-ints", "zeros", "respelt"])
+    kind = rng.choice(["int", "int", "signed", "float", "float", "string", "mixed", "mixed", "version", "small-ints", "zeros", "respelt", "flags"])
     base = rng.choice([1, 2, 10, 15, 100])
     out = []
     for _ in range(n):
@@ -274,6 +274,9 @@ def gen_arg_list(rng, n):
         elif kind == "respelt":
             v = base + rng.choice([0, 0, 0, 1, -1])
             s = rng.choice(["%d", "0%d", "+%d", "%d.0", "%d.00", "%de0", "%d.", "00%d"]) % v
+        elif kind == "flags":
+            s = rng.choice(["-O0", "-O2", "-O3", "-v", "--release", "-1x", "-x1", "-", "--", "-e5", "-.5x", "+O0", "-inf", "-nan", "-infx"]) \
+                if rng.random() < 0.5 else rng.choice([str(rng.randrange(0, 20)), "2.5", "-3", "0.5", "-0", "10"])
         elif kind == "version":
             s = "%d.%d%s" % (rng.randrange(0, 3), rng.randrange(0, 12), rng.choice(["", "", "a", ".0", ".1", "-rc1", "0"]))
         else:
